@@ -4,6 +4,7 @@ package c07
 import (
 	"bytes"
 	"fmt"
+	"strings"
 	"testing"
 	"time"
 
@@ -164,7 +165,7 @@ var rgTime = time.Unix(1500000000, 0).UTC()
 var pool = []string{"n0", "n1", "n2", "n3", "n4", "n5"}
 
 var kinds = []string{"addref", "addref", "addref_clone", "addref_difflen", "addref_md5", "rmref", "rmref", "setname", "readd_ref",
-	"addrg", "rmrg", "setrgname", "addpg", "rmpg", "setuid", "clone", "merge", "rm_foreign", "unmarshal_sq", "unmarshal_rg", "unmarshal_pg", "unmarshal_co", "reparse"}
+	"addrg", "rmrg", "setrgname", "addpg", "rmpg", "setuid", "clone", "merge", "rm_foreign", "unmarshal_restate", "unmarshal_sq", "unmarshal_rg", "unmarshal_pg", "unmarshal_co", "reparse"}
 
 func drawB(t *rapid.T) BCase {
 	c := BCase{H: sb.HSpecGen(0, 3).Draw(t, "header")}
@@ -457,6 +458,24 @@ func runB(c BCase, rec *h.Rec) {
 				}
 			case "unmarshal_sq":
 				opErr = hd.UnmarshalText([]byte(fmt.Sprintf("@SQ\tSN:%s\tLN:%d\n", pool[op.N], op.L)))
+			case "unmarshal_restate":
+				// several lines in one call: the first restates a reference the header
+				// holds, in the header's own words (accepted, nothing to do), the others are new
+				if len(hd.Refs()) == 0 {
+					return
+				}
+				ex := hd.Refs()[op.I%len(hd.Refs())]
+				fresh := fmt.Sprintf("x%d_%d", i, op.I)
+				before := len(hd.Refs())
+				opErr = hd.UnmarshalText([]byte(fmt.Sprintf("%s\n@SQ\tSN:%s\tLN:%d\n@RG\tID:%s\tLB:x\n", ex.String(), fresh, op.L, fresh)))
+				// (the library may refuse the restatement itself - line 1 - when the
+				// reference carries detail; what it must not do is accept it and then
+				// refuse the new, valid lines that follow)
+				if opErr != nil && !strings.Contains(opErr.Error(), "line 1:") || opErr == nil && len(hd.Refs()) != before+1 {
+					rec.Failf("%s: UnmarshalText of a restated @SQ line followed by a new @SQ and a new @RG line returned %v and left %d references (were %d)", what, opErr, len(hd.Refs()), before)
+					failed = true
+					return
+				}
 			case "unmarshal_rg":
 				opErr = hd.UnmarshalText([]byte(fmt.Sprintf("@RG\tID:%s\tLB:x\n", pool[op.N])))
 			case "unmarshal_pg":
